@@ -111,3 +111,31 @@ Example backlog_200_unread :
   obs_of F_CRTP (snd (r_run r_init (backlog 200))) = [(F_CRTP, None); (F_CRTP, Some q1)] /\
   length (pending 5 (fst (r_run r_init (backlog 200)))) = 200%nat.
 Proof. split; vm_compute; reflexivity. Qed.
+
+
+(* ---- growth round *)
+From CF Require Import C18.Driver.
+(* driver: a CRTP packet, an APP packet (not for the driver), an empty CRTP-function packet (skipped), another CRTP packet *)
+Definition dps : list cpx := [new_cpx F_CRTP T_HOST T_STM32 [0x5E; 1]; new_cpx 5 T_HOST 4 [9]; new_cpx F_CRTP T_HOST T_STM32 [];
+                              new_cpx F_CRTP T_HOST T_STM32 [0x10]].
+Example driver_example :
+  snd (d_run [2] (fst (d_connect [2] [concat (map frame dps)]))
+         [DRecv 0; DPump; DPump; DRecv (-1); DPump; DPump; DSend 0x5E [7]; DRecv 1; DRecv 0; DClose; DSend 0x5E [7]])
+  = [DGot None; DGot (Some (mk_crtp 0x5E 5 2 [1])); DSent (Ok [4; 0; 25; 3; 0x5E; 7]); DGot (Some (mk_crtp 0x1C 1 0 []));
+     DGot None; DClosed; DSent (Exc AttributeErr)].
+Proof. reflexivity. Qed.
+(* before F18e the CRTP queue was created by the receive thread AFTER the router thread had been started: a packet read in
+   between found no queue (router state r_init) and was dropped *)
+Example connect_race_before_fix :
+  pending F_CRTP (fst (r_run r_init [Arrive (Ok q1); Recv F_CRTP])) = [] /\
+  pending F_CRTP (fst (r_run (upd r_init F_CRTP []) [Arrive (Ok q1)])) = [q1].
+Proof. split; reflexivity. Qed.
+(* makeTransaction returns the HEAD of the function's queue: a packet that was already queued before the request was sent
+   is taken for the reply (what the code does; the property text only asks for per-function arrival order) *)
+Example transaction_takes_stale_packet :
+  snd (c_run [] (mk_cs [frame q1; frame q2] r_init true) [CRecv F_CRTP; CPump; CTransact q3 1])
+  = [ORecv F_CRTP None; OTrans (Ok (frame q3)) (Some q1)].
+Proof. reflexivity. Qed.
+(* UART connect: 0xFF 0xFF 0x00 does not synchronise (the second 0xFF is taken as a size), a later 0xFF 0x00 does *)
+Example uart_connect_quirk : uart_connect [255; 255; 0; 7] = None /\ uart_connect [255; 255; 0; 7; 255; 0; 9] = Some [9].
+Proof. split; reflexivity. Qed.
